@@ -60,6 +60,14 @@ def unit_serves(unit_path: str) -> List[str]:
     return []
 
 
+def unit_rlimit(unit_path: str, default: float) -> float:
+    for line in open(unit_path):
+        m = re.match(r'^\s*//@rlimit\s+(\d+)', line)
+        if m:
+            return max(default, float(m.group(1)))
+    return default
+
+
 def all_units() -> List[str]:
     import glob
     return sorted(glob.glob(os.path.join(VERIF, 'units', '*.unit')))
@@ -240,9 +248,9 @@ def run_units(unit_paths: List[str], rlimit: float = 10, seed: int = 0, canary: 
     with ThreadPoolExecutor(max_workers=jobs) as ex:
         futs = {}
         for up in unit_paths:
-            futs[(up, False)] = ex.submit(verify_unit, up, contracts, False, rlimit, seed, threads)
+            futs[(up, False)] = ex.submit(verify_unit, up, contracts, False, unit_rlimit(up, rlimit), seed, threads)
             if canary:
-                futs[(up, True)] = ex.submit(verify_unit, up, contracts, True, rlimit, seed, threads)
+                futs[(up, True)] = ex.submit(verify_unit, up, contracts, True, unit_rlimit(up, rlimit), seed, threads)
         for (up, can), fu in futs.items():
             r = fu.result()
             out.setdefault(r.unit, {})['canary' if can else 'main'] = r
